@@ -1036,15 +1036,15 @@ func (ro *RedisOutput) sendCmdsBatch(replayWait usync.WaitCloser, conn client.Re
 		// an idle tick must not replace a good checkpoint by an undefined one
 		if shouldUpdateCP && lastOffset >= 0 {
 			if ro.cfg.EnableResumeFromBreakPoint {
-				if len(cmdQueue) > 0 {
+				if len(cmdQueue) > 0 && cmdQueue[len(cmdQueue)-1].Db >= 0 {
 					lastCmd := cmdQueue[len(cmdQueue)-1]
 					if _, ok := cpInDbs[lastCmd.Db]; !ok {
 						cpInDbs[lastCmd.Db] = struct{}{}
 						batcher.Put("hset", checkpointKv.Key, checkpointKv.RunIdKey(), runId, checkpointKv.VersionKey(), config.Version)
 					}
 				} else {
-					// nothing is queued, so the database the connection is in is not known here : it may hold no
-					// record of this run yet, and an offset without its run id reads as "no checkpoint" after a restart
+					// nothing is queued, or only the keep-alive, so the database the connection is in is not known here : it
+					// may hold no record of this run yet, and an offset without its run id reads as "no checkpoint" after a restart
 					batcher.Put("hset", checkpointKv.Key, checkpointKv.RunIdKey(), runId, checkpointKv.VersionKey(), config.Version)
 				}
 				batcher.Put("hset", checkpointKv.Key, checkpointKv.OffsetKey(), lastOffset)
@@ -1215,6 +1215,7 @@ func (ro *RedisOutput) sendCmdsBatch(replayWait usync.WaitCloser, conn client.Re
 					cmdQueue = append(cmdQueue, cmdExecution{
 						Cmd:    "ping",
 						Offset: lastOffset,
+						Db:     -1, // the keep-alive belongs to no database of the stream
 					})
 					// ping and update offset, ping a random node, so maybe cross slots
 					transactionBatch = false
